@@ -41,9 +41,12 @@ package xfer
 //@   ensures[accepts-own-output] unpackOK(self, old(view(src))) ==> result.1 == nil
 //@   ensures[unpacks] result.1 == nil ==> view(result.0) == unpackv(self, old(view(src)))
 
+// ghost.lastPackedLen: length of what the latest pipe OnPack returned
+//@ ghost global lastPackedLen int
 //@ func (*XferPipe).OnPack
 //@   property C12
 //@   flags seq libframe
+//@   ghostset ghost.lastPackedLen = len(result.0)
 //@   ensures[last-to-first] result.1 == nil ==> view(result.0) == packFrom(old(rowof(x.filters)), old(off(x.filters)), 0, old(len(x.filters)), old(view(data)))
 //@   loop 0: invariant[chain] -1 <= i && i < len(x.filters) && err == nil && view(data) == packFrom(rowof(x.filters), off(x.filters), i + 1, len(x.filters), old(view(data)))
 
